@@ -55,6 +55,14 @@ def gen(tier, rnd):
         case(['R 1 hold', 'I 10', 'R 2', 'I 10', 'R 3 hold', 'I 10', 'R 4', 'I 10', 'R 5', 'I 10', 'R 6', 'U 1', 'I 10', 'R 7', 'I 10', 'R 2', 'I 10', 'R 8',
               'I 10', 'U 3', 'R 9', 'R 10', 'R 11'], 300, mi)
         case(['O 1', 'I 10', 'R 2', 'I 10', 'A 3', 'I 10', 'R 4', 'I 10', 'R 5', 'I 10', 'a 3', 'I 10', 'R 6', 'R 7', 'K 1', 'R 8', 'R 9', 'o 1', 'R 10'], 300, mi)
+    # 3a. a block-wise transfer hanging off a session: served to the end, abandoned, asked for with an ETag that is not the body's; reclamation and teardown
+    for to in (1, 10):
+        T = to * 1000
+        case(['B 1'] + ['b 1 %d' % k for k in range(1, 13)] + ['I %d' % (2 * T)], to)
+        case(['B 1', 'b 1 1', 'b 1 2', 'I %d' % (2 * T), 'B 1', 'F'], to)
+        case(['B 1', 'e 1 1', 'e 1 2', 'e 1 1', 'b 1 1', 'I 100', 'e 1 3', 'I %d' % (2 * T)], to)
+        case(['B 1', 'B 2', 'e 1 1', 'b 2 1', 'e 2 2', 'R 3', 'F'], to)
+        case(['B 1 ', 'b 1 5', 'b 1 3', 'b 1 99', 'e 1 99', 'I %d' % (400000)], to)
     # 3b. stream sessions (TCP): connect, requests, holders, the peer disconnects (state NONE), reclamation once nothing refers to the session
     for to in (1, 10):
         T = to * 1000
@@ -122,6 +130,8 @@ def gen(tier, rnd):
                 ops.append('P %d' % p)
             elif r < 0.34:
                 ops.append('%s %d' % (rnd.choice('op'), p))
+            elif r < 0.37:
+                ops.append(rnd.choice(('B %d' % p, 'b %d %d' % (p, rnd.randint(1, 13)), 'e %d %d' % (p, rnd.randint(0, 13)))))
             elif r < 0.40:
                 ops.append('A %d' % p)
             elif r < 0.46:
